@@ -178,11 +178,15 @@ func (db *SpecDB) parseSpecFile(path string, src []byte, pkgShort string, truste
 			if word == "channel" {
 				key = "chan:" + key
 			}
-			cur = &Contract{Key: key, Params: params, Trusted: trusted, Loops: map[int]*LoopSpec{}, Closures: map[int]*Contract{}, File: path, Line: l.no, Witnesses: map[string]string{}}
 			if old, ok := db.Contracts[key]; ok {
-				return fmt.Errorf("%s: duplicate contract for %s (first at %s:%d)", loc, key, old.File, old.Line)
+				if old.Trusted != trusted {
+					return fmt.Errorf("%s: contract for %s both trusted and in /repo (first at %s:%d)", loc, key, old.File, old.Line)
+				}
+				cur = old // a second block for the same function adds clauses (e.g. access class here, functional clauses there)
+			} else {
+				cur = &Contract{Key: key, Params: params, Trusted: trusted, Loops: map[int]*LoopSpec{}, Closures: map[int]*Contract{}, File: path, Line: l.no, Witnesses: map[string]string{}}
+				db.Contracts[key] = cur
 			}
-			db.Contracts[key] = cur
 			tgt, curLoop = cur, nil
 		case "props":
 			if cur == nil {
@@ -219,7 +223,7 @@ func (db *SpecDB) parseSpecFile(path string, src []byte, pkgShort string, truste
 			}
 			tgt.HasMod = true
 			for _, m := range strings.Split(rest, ",") {
-				if m = strings.TrimSpace(m); m != "" && m != "nothing" {
+				if m = strings.TrimSpace(m); m != "" && m != "nothing" && !contains(tgt.Modifies, m) {
 					tgt.Modifies = append(tgt.Modifies, m)
 				}
 			}
